@@ -193,7 +193,7 @@ def _extra_families():
                                               lengthscale_constraint=C.Interval(torch.tensor([0.05, 0.1]) * s, torch.tensor([8.0, 9.0]) * s)),
                 outputscale_prior=P.HalfCauchyPrior(1.5 * s), outputscale_constraint=C.Interval(0.01 * s, 20.0 * s),
             )
-            mean = gpytorch.means.ConstantMean(constant_prior=P.NormalPrior(0.1 * s, 2.0 * s))
+            mean = gpytorch.means.ConstantMean(constant_prior=P.SmoothedBoxPrior(-1.0 * s, 1.5 * s, sigma=0.1 * s * s))  # (its normaliser depends on (b - a) / sigma)
             gp = util.GP(self.X, self.y, lik, mean, k)
             # priors registered by parameter NAME (the library builds the closure) and by user closures
             k.base_kernel.register_prior("vf_named_raw_ls", P.NormalPrior(0.3 * s, 1.1 * s), "raw_lengthscale")
